@@ -166,7 +166,7 @@ def run(ctx):
         open(blist, "w").write("\n".join(bases) + "\n")
         rc, out = C.harness(["damage", "--stale", "--seed", ctx.seed + 5, "--bases", blist, "--count", 600 if quick else 8000, "--max-ops", 14, "--outdir", sdir, "--list", slist], timeout=3000)
         stale_stat, _, orc = C.parse_stats(out)
-        orc = [m for m in orc if not m.startswith("C02 ")]   # the live-vs-reopened comparison of these histories is C02's
+        orc = [m for m in orc if not m.startswith("C02 ") and not m.startswith("C10 ")]   # live-vs-reopened is C02's, refused handle calls are C10's
         for msg in orc[:2]:
             m = re.search(r"\[image (\S+) history (\S+)\]", msg)
             text = open(m.group(2)).read() if m and os.path.exists(m.group(2)) else ""
